@@ -5,7 +5,7 @@
 import json, glob, os
 HERE = os.path.dirname(os.path.abspath(__file__))
 RNG_WRAPS = ["srand_", "rand_", "randInt", "randDouble"]
-THREAD_WRAPS = ["pthread_create", "pthread_join", "pthread_exit"]
+THREAD_WRAPS = ["pthread_create", "pthread_join", "pthread_exit", "pthread_tryjoin_np"]
 ENG = ["engine/vx.c", "engine/vnum.c"]
 
 
